@@ -218,6 +218,23 @@ class SimplicialComplex(Hypergraph):
         """add_node_to_edge is not implemented in SimplicialComplex."""
         raise XGIError("add_node_to_edge is not implemented in SimplicialComplex.")
 
+    def dual(self):
+        """The dual of the simplicial complex, as a Hypergraph.
+
+        In the dual, nodes become edges and edges become nodes. The dual of a
+        simplicial complex is in general not closed under taking faces (and nodes
+        with the same simplices become repeated edges), so it is returned as a
+        Hypergraph; the dual of that hypergraph has the nodes, the simplices and
+        the attributes of the complex again.
+
+        Returns
+        -------
+        Hypergraph
+            The dual of the simplicial complex.
+
+        """
+        return Hypergraph(self).dual()
+
     def _add_simplex(self, members, idx=None, **attr):
         """Helper function to add a simplex to a simplicial complex, without any
         check. Does not automatically update self._edge_uid"""
